@@ -215,7 +215,7 @@ def num(rng, neg=True):
     if r < 0.92:
         return rng.randint(6, 11)
     if r < 0.96 and neg:
-        return rng.randint(-5, -1)
+        return rng.randint(-20, -15)     # user numbers -1, -2, -5, -6 are scratch numbers of the engine itself
     return rng.choice([0, 1, 20, 99, 1000, 214748])
 
 
